@@ -369,6 +369,9 @@ def campaign(prop, tier, verif_seed, nruns=None, jobs=None, out=sys.stdout):
     if done != nruns:
         raise HarnessFault('ran %d of %d runs' % (done, nruns))
 
+    if os.environ.get('DSIM_DIGESTS'):
+        with open(os.environ['DSIM_DIGESTS'], 'w') as f:
+            json.dump({str(k): v for k, v in sorted(all_digests.items())}, f)
     # 3. determinism spot check: re-run ~1% of the runs in this process, digests must match
     spot = sorted(all_digests)[:: max(1, nruns // max(3, nruns // 100))][:25]
     mism = 0
